@@ -253,7 +253,7 @@ void Engine::exec_op(const J &op, int task, int idx) {
 		sim::ApiScope api(f->name);
 		rec.inv_step = sim::self()->api_invoke_step;
 		size_t si = starts.size();
-		starts.push_back(OpStart{task, &op, rec.inv_step, sim::time_s(), sim::now_us()});
+		{ sim::HarnessScope hs; starts.push_back(OpStart{task, &op, rec.inv_step, sim::time_s(), sim::now_us()}); }
 		f->call(n, a);
 		starts[si].returned = true; starts[si].ret_step = sim::step();
 	} else if (k == "flush") {
@@ -421,19 +421,39 @@ void Engine::run() {
 		cur_phase = -1;
 		sim::set_session((int) s + 1);
 		int r = -2;
+		if (se.getb("fresh", false)) sim::lib_state_restore();   // reference session: library statics as in a fresh process
+		session_wire_begin.push_back(bus.wire.size());
 		if (!se.getb("no_start", false)) {
 			r = do_start(se["start"]);
+			if (se["start"].has("expect") && r != (int) se["start"].geti("expect"))
+				violate("START_RETURN", se["start"].gets("mode"), "start returned " + std::to_string(r) + ", the plan expects " + std::to_string(se["start"].geti("expect")) + " (valid generated configuration, responsive interface)");
 			if (prop) prop->on_session_start(*this, (int) s, r);
 		}
 		if (r == 0 || se.getb("phases_anyway", false)) {
 			const J &phs = se["phases"];
 			for (size_t p = 0; p < phs.size(); p++) { cur_phase = (int) p; run_phase(phs[p]); }
 		}
+		if (r == 0 && se.getb("start_again", false)) {
+			// start while running must do nothing
+			size_t w = bus.wire.size(); int tc = sim::task_count();
+			int r2;
+			{ sim::ApiScope api("bidib_start_pointer"); r2 = bidib_start_pointer(cb_read, cb_write, cfgdir.empty() ? nullptr : cfgdir.c_str(), (unsigned) se["start"].geti("flush_ms", 0)); }
+			if (bus.wire.size() != w || sim::task_count() != tc)
+				violate("START_WHILE_RUNNING_ACTED", "bidib_start", "a second start while running sent messages or created threads (returned " + std::to_string(r2) + ")");
+		}
 		if (se.getb("stop", true)) {
 			if (prop) prop->before_stop(*this, (int) s);
 			do_stop();
 			if (prop) prop->on_session_stop(*this, (int) s);
+			if (se.getb("stop_again", false)) {
+				size_t w = bus.wire.size(); size_t te = sim::thread_events().size(); uint64_t t0 = sim::now_us();
+				do_stop();
+				live_after_stop.pop_back();
+				if (bus.wire.size() != w || sim::thread_events().size() != te || sim::now_us() != t0)
+					violate("STOP_WHILE_STOPPED_ACTED", "bidib_stop", "bidib_stop on a stopped library sent messages, joined threads or slept");
+			}
 		}
+		session_wire_end.push_back(bus.wire.size());
 	}
 	if (prop) prop->at_end(*this);
 	sim::run_end();
